@@ -100,7 +100,7 @@ class Signature(object):
         Pk1 = Public_key(generator, Q1)
 
         # And the second solution
-        R2 = ellipticcurve.PointJacobi(curve, x, -y, 1, n)
+        R2 = ellipticcurve.PointJacobi(curve, x, -y % curve.p(), 1, n)
         Q2 = numbertheory.inverse_mod(r, n) * (s * R2 + (-e % n) * generator)
         Pk2 = Public_key(generator, Q2)
 
